@@ -34,11 +34,13 @@ pub enum Dev {
     /// approved for (chain + SEP + "p", id) but delivered as (chain, "p" + SEP + id): the same characters,
     /// split differently between chain and id
     ApprovedSeparatorShift(u8),
+    /// approved with the chain / id / source address in another letter case, or with surrounding whitespace
+    ApprovedCaseOrSpaceVariant(u8),
 }
 
 const SEPS: [&str; 8] = ["", "_", ":", "-", "/", "|", ".", " "];
 
-const DEVS: [Dev; 19] = [
+const DEVS: [Dev; 25] = [
     Dev::None,
     Dev::NeverApproved,
     Dev::ApprovedForOtherApp,
@@ -58,6 +60,12 @@ const DEVS: [Dev; 19] = [
     Dev::ApprovedSeparatorShift(5),
     Dev::ApprovedSeparatorShift(6),
     Dev::ApprovedSeparatorShift(7),
+    Dev::ApprovedCaseOrSpaceVariant(0),
+    Dev::ApprovedCaseOrSpaceVariant(1),
+    Dev::ApprovedCaseOrSpaceVariant(2),
+    Dev::ApprovedCaseOrSpaceVariant(3),
+    Dev::ApprovedCaseOrSpaceVariant(4),
+    Dev::ApprovedCaseOrSpaceVariant(5),
 ];
 
 #[derive(Clone, Debug, Serialize, Deserialize)]
@@ -77,10 +85,10 @@ impl Property for C16 {
         "C16"
     }
     fn rule(&self) -> &'static str {
-        "proptest single cases: app (the shipped example / a minimal harness app that calls the interface's validate_message helper and aborts on error) x delivery (chain, id, source address from small pools incl. empty strings; payload 0..600 bytes) x at most one deviation (never approved; approved for another app / payload / source address / id / chain; delivered twice; additionally approved for the other app; approval re-submitted, or the id re-approved with other content, after delivery; approved under another split of the same characters between chain and id, for 8 separators). All 2x19 app x deviation combinations are also enumerated as fixed cases. Oracle: the app's effect (its executed event / counter) and the gateway's transition to executed happen iff the gateway held a matching unexecuted approval naming this app; otherwise the delivery fails, nothing is emitted and the ledger snapshot is identical. non-trivial = a deviation is present; distinct by Debug hash"
+        "proptest single cases: app (the shipped example / a minimal harness app that calls the interface's validate_message helper and aborts on error) x delivery (chain, id, source address from small pools incl. empty strings; payload 0..600 bytes) x at most one deviation (never approved; approved for another app / payload / source address / id / chain; delivered twice; additionally approved for the other app; approval re-submitted, or the id re-approved with other content, after delivery; approved under another split of the same characters between chain and id, for 8 separators; approved in another letter case or with surrounding whitespace). All 2x25 app x deviation combinations are also enumerated as fixed cases. Oracle: the app's effect (its executed event / counter) and the gateway's transition to executed happen iff the gateway held a matching unexecuted approval naming this app; otherwise the delivery fails, nothing is emitted and the ledger snapshot is identical. non-trivial = a deviation is present; distinct by Debug hash"
     }
     fn fixed_is_exhaustive(&self) -> Option<&'static str> {
-        Some("app x deviation matrix (2 x 19) enumerated completely with one fixed delivery; deliveries sampled")
+        Some("app x deviation matrix (2 x 25) enumerated completely with one fixed delivery; deliveries sampled")
     }
     fn cases(&self, tier: Tier) -> u64 {
         tier.pick(20000, 200000)
@@ -138,6 +146,17 @@ impl Property for C16 {
                 let sep = SEPS[k as usize % SEPS.len()];
                 // delivered: (chain, "p" + sep + id)  -- see `deliver` below
                 vec![mk(&app, &format!("{}{}p", chain, sep), id, src, &payload)]
+            }
+            Dev::ApprovedCaseOrSpaceVariant(k) => {
+                let up = |x: &str| if x.is_empty() { "X".to_string() } else { x.to_uppercase() };
+                match k % 6 {
+                    0 => vec![mk(&app, &up(chain), id, src, &payload)],
+                    1 => vec![mk(&app, chain, &up(id), src, &payload)],
+                    2 => vec![mk(&app, chain, id, &up(src), &payload)],
+                    3 => vec![mk(&app, &format!("{} ", chain), id, src, &payload)],
+                    4 => vec![mk(&app, chain, &format!(" {}", id), src, &payload)],
+                    _ => vec![mk(&app, chain, id, &format!("{} ", src), &payload)],
+                }
             }
             Dev::AlsoApprovedForOtherApp => vec![mk(&app, chain, id, src, &payload), mk(&other_app, chain, &format!("{}y", id), src, &payload)],
         };
